@@ -1489,18 +1489,9 @@ int input_to (svalue_t * fun, int flag, int num_arg, svalue_t * args) {
   if (!command_giver || command_giver->flags & O_DESTRUCTED)
     return 0;
 
-  s = alloc_sentence ();
-  if (!set_call (command_giver, s, flag & ~I_SINGLE_CHAR))
-    {
-      /* LPC spec. says if input_to() is called more than once, only the first call succeeds.
-       * No error is raised for subsequent calls, but the sentence created for the subsequent
-       * call should be freed to avoid memory leaks.
-       */
-      free_sentence (s);
-      return 0;
-    }
-
-  /* Convert string to function pointer or use existing funptr */
+  /* Convert string to function pointer or use existing funptr.
+   * This is done BEFORE the sentence is installed by set_call(): an error raised here
+   * (function not found) must not leave a half-initialised sentence on the interactive. */
   if (fun->type == T_STRING)
     {
       /* Find function in current_object and create FP_LOCAL function pointer */
@@ -1521,8 +1512,19 @@ int input_to (svalue_t * fun, int flag, int num_arg, svalue_t * args) {
     }
   else
     {
-      free_sentence (s);
       error ("input_to: fun must be string or function");
+    }
+
+  s = alloc_sentence ();
+  if (!set_call (command_giver, s, flag & ~I_SINGLE_CHAR))
+    {
+      /* LPC spec. says if input_to() is called more than once, only the first call succeeds.
+       * No error is raised for subsequent calls, but the sentence created for the subsequent
+       * call should be freed to avoid memory leaks.
+       */
+      free_sentence (s);
+      free_funp (callback_funp);
+      return 0;
     }
 
   /* Store function pointer (always use V_FUNCTION now) */
@@ -1558,18 +1560,9 @@ int get_char (svalue_t * fun, int flag, int num_arg, svalue_t * args) {
   if (!command_giver || command_giver->flags & O_DESTRUCTED)
     return 0;
 
-  s = alloc_sentence ();
-  if (!set_call (command_giver, s, flag | I_SINGLE_CHAR))
-    {
-      /* LPC spec. says if get_char() is called more than once, only the first call succeeds.
-       * No error is raised for subsequent calls, but the sentence created for the subsequent
-       * call should be freed to avoid memory leaks.
-       */
-      free_sentence (s);
-      return 0;
-    }
-
-  /* Convert string to function pointer or use existing funptr */
+  /* Convert string to function pointer or use existing funptr.
+   * This is done BEFORE the sentence is installed by set_call(): an error raised here
+   * (function not found) must not leave a half-initialised sentence on the interactive. */
   if (fun->type == T_STRING)
     {
       /* Find function in current_object and create FP_LOCAL function pointer */
@@ -1590,8 +1583,19 @@ int get_char (svalue_t * fun, int flag, int num_arg, svalue_t * args) {
     }
   else
     {
-      free_sentence (s);
       error ("get_char: fun must be string or function");
+    }
+
+  s = alloc_sentence ();
+  if (!set_call (command_giver, s, flag | I_SINGLE_CHAR))
+    {
+      /* LPC spec. says if get_char() is called more than once, only the first call succeeds.
+       * No error is raised for subsequent calls, but the sentence created for the subsequent
+       * call should be freed to avoid memory leaks.
+       */
+      free_sentence (s);
+      free_funp (callback_funp);
+      return 0;
     }
 
   /* Store function pointer (always use V_FUNCTION now) */
